@@ -35,6 +35,11 @@ def gen_restore(r, tier):
                             ops.append("w.new " + " ".join(toks))
                             if r.chance(0.5):
                                 ops.append(f"w.cycle curve={r.range(0,255)} now=1000")
+                                if kind != "cmd" and r.chance(0.4):
+                                    # the device is enumerated again while fan2go runs (the configured path is a symbolic link,
+                                    # as /sys/class/hwmon/hwmonN is): the hand-back has to reach the device the path leads to
+                                    # NOW (seed C03k: write targets resolved once and remembered)
+                                    ops.append("w.dev reprobe=1")
                             ops.append("w.restore")
     n = 200 if tier == "quick" else 5000
     for _ in range(n):  # random worlds incl. failing PWM writes (outside the hypothesis: must still correspond)
@@ -43,8 +48,23 @@ def gen_restore(r, tier):
             f = r.pick(["pwmwrite", "modewrite", "moderead"])
             v = r.pick(["ok", "perm", "other:-1"]) if f.endswith("read") else r.pick(WRITES)
             ops.append(f"w.dev {f}={v}")
+        if r.chance(0.3):
+            ops.append(f"w.cycle curve={r.range(0,255)} now=1000")
+            ops.append("w.dev reprobe=1")
         ops.append("w.restore")
     return ops
+
+
+def lifecycle_contract(op, go_line, lean_line):
+    """`stop=idle<k>` cancels 3 ms of REAL time after the k-th evaluation (tick 40 ms): on a loaded machine the controller
+    may get one more cycle in before the cancellation lands. More evaluations than the model's k are allowed there;
+    everything else on the line must agree."""
+    import re
+    if not (op.startswith("lc.run") and "stop=idle" in op):
+        return False
+    eg, el = re.search(r"evals=(\d+)", go_line), re.search(r"evals=(\d+)", lean_line)
+    strip = lambda l: re.sub(r"evals=\d+", "evals=?", l)
+    return bool(eg and el and int(eg.group(1)) >= int(el.group(1)) and strip(go_line) == strip(lean_line))
 
 
 def gen_failed_start(r, tier):
@@ -86,7 +106,7 @@ class C03(Prop):
                # oracle-only: the su.* model belongs to C15; here only the device registers left behind matter
                Stream("failed-start", gen_failed_start, parallel=1, exact=False, contract=lambda op, a, b: True),
                # the real Run(ctx) cancelled at every phase boundary vs the single-controller slice of Model/Lifecycle.lean
-               Stream("lifecycle", gen_lifecycle, parallel=2, timeout=1800)]
+               Stream("lifecycle", gen_lifecycle, parallel=2, timeout=1800, exact=False, contract=lifecycle_contract)]
 
     def oracle(self, name, ops, go):
         out = []
